@@ -330,7 +330,7 @@ func c04Dedup(c *Ctx) {
 			return true
 		}
 		keys++
-		call, isCall := ix.Index.(*ast.CallExpr)
+		call, isCall := ast.Unparen(throughSingleDef(info, f.Body, ix.Index)).(*ast.CallExpr)
 		good := false
 		if isCall {
 			if cal := core.Callee(info, call); cal != nil && cal.Name() == "String" && recvName(cal) == "Param" {
@@ -442,6 +442,48 @@ func c04Alias(c *Ctx) {
 					if x, ok := stack[j].(*ast.CaseClause); ok {
 						cc = x
 						break
+					}
+				}
+				if f.Name == "component/routing.AliasOptimizer.Optimize" && cc == nil && isConst {
+					// if-chain form of the table: the old values are the constants the same field is compared equal to
+					// on the edge that reaches the rewrite (a == "x" || a == "y" counts for both)
+					fg := f.Graph()
+					lhsStr := core.ExprStr(l)
+					var olds []string
+					var collect func(e ast.Expr)
+					collect = func(e ast.Expr) {
+						be, ok := ast.Unparen(e).(*ast.BinaryExpr)
+						if !ok {
+							return
+						}
+						if be.Op == token.LOR {
+							collect(be.X)
+							collect(be.Y)
+							return
+						}
+						if be.Op == token.EQL {
+							for _, pr := range [][2]ast.Expr{{be.X, be.Y}, {be.Y, be.X}} {
+								if core.ExprStr(pr[0]) == lhsStr {
+									if v, ok := constStr(info, pr[1]); ok {
+										olds = append(olds, v)
+									}
+								}
+							}
+						}
+					}
+					for _, p := range fg.Find(func(n ast.Node) bool { return n == ast.Node(as) }) {
+						for _, gd := range fg.Guards(p) {
+							if gd.Polarity {
+								collect(gd.Cond)
+							}
+						}
+					}
+					if len(olds) > 0 {
+						for _, old := range olds {
+							got[fld+"|"+old] = val
+							gotPos[fld+"|"+old] = c.pos(as.Pos())
+						}
+						continue
 					}
 				}
 				if f.Name != "component/routing.AliasOptimizer.Optimize" || cc == nil || !isConst {
